@@ -1,8 +1,10 @@
 (* Update.v — executable model of BaseDiscretizer.update_discretizer
    (AutoCarver/discretizers/utils/base_discretizers.py) on the fitted state of ONE feature
    (record `state` of Model/Transform.v), built on the GroupedList operations of
-   Model/GroupedList.v.  Models the REPAIRED NaN test (`pandas.isna`, total on strings; the
-   original `numpy.isnan` raised TypeError for every string argument, observation O8a).
+   Model/GroupedList.v.  Models the REPAIRED code: NaN test `pandas.isna` (total on strings; the
+   original `numpy.isnan` raised TypeError for every string argument, observation O8a) and
+   'replace' accepting a member of the discarded group (originally `order.group(kept, discarded)`
+   was unconditional and asserted that kept is a LEADER, observation O17).
 
      assert mode in ["group", "replace"]
      if isna(discarded): discarded = str_nan ; features_dropna[feature] = True     (* written BEFORE
@@ -14,7 +16,8 @@
         if not order.contains(kept): order.append(kept)
         'group'  : if not order.contains(discarded): order.append(discarded)
                    order.group(discarded, kept)
-        'replace': order.group(kept, discarded)
+        'replace': if not order.get_group(kept) == discarded:        (* repaired: a member of the
+                       order.group(kept, discarded)                    group can be chosen *)
                    assert order.get_group(kept) == discarded
                    order.replace_group_leader(discarded, kept)
         labels_per_values = _get_labels_per_values(output_dtype)       (* label refresh *)
@@ -66,7 +69,7 @@ Definition edit_order (g : gl) (m : umode) (d k : val) : gl * outcome :=
       let g2 := ensure g1 d in
       gl_try g2 (group g2 d k)
   | MReplace =>
-      match group g1 k d with
+      match (if py_eq (get_group g1 k) d then Ok g1 else group g1 k d) with
       | Ok g2 =>
           if py_eq (get_group g2 k) d
           then gl_try g2 (replace_group_leader g2 d k)
